@@ -33,6 +33,7 @@ type Sub struct {
 
 // Conn implements res.Conn.
 type Conn struct {
+	dmu    sync.RWMutex // held (read) while a delivery is in flight; Close waits for deliveries like a real connection
 	mu     sync.Mutex
 	subs   []*Sub
 	pubs   []Msg
@@ -166,6 +167,9 @@ func (c *Conn) ChanQueueSubscribe(subject, queue string, ch chan *nats.Msg) (*na
 func (c *Conn) Close() {
 	atomic.AddInt32(&c.nclose, 1)
 	atomic.StoreInt32(&c.closed, 1)
+	// no message is delivered to a subscriber channel once Close has returned
+	c.dmu.Lock()
+	c.dmu.Unlock() //nolint:staticcheck
 }
 
 // CloseCount returns how often Close was called.
@@ -209,6 +213,8 @@ var ErrBlocked = errors.New("rconn: subscriber channel full")
 // Deliver sends a message to every matching subscription (one member per
 // queue group, like a server would) and returns the number of deliveries.
 func (c *Conn) Deliver(subject, reply string, data []byte) (int, error) {
+	c.dmu.RLock()
+	defer c.dmu.RUnlock()
 	if atomic.LoadInt32(&c.closed) != 0 {
 		return 0, nats.ErrConnectionClosed
 	}
@@ -228,11 +234,17 @@ func (c *Conn) Deliver(subject, reply string, data []byte) (int, error) {
 			queues[s.Queue] = true
 		}
 		m := &nats.Msg{Subject: subject, Reply: reply, Data: data, Sub: s.NS}
-		select {
-		case s.Ch <- m:
-			n++
-		case <-time.After(2 * time.Second):
-			return n, ErrBlocked
+		sent := false
+		for !sent {
+			select {
+			case s.Ch <- m:
+				n++
+				sent = true
+			case <-time.After(200 * time.Microsecond):
+				if atomic.LoadInt32(&c.closed) != 0 {
+					return n, nats.ErrConnectionClosed
+				}
+			}
 		}
 	}
 	return n, nil
@@ -241,6 +253,8 @@ func (c *Conn) Deliver(subject, reply string, data []byte) (int, error) {
 // DeliverTo sends a message directly into one subscription's channel (used to
 // model messages that were already in flight when a drain was requested).
 func (c *Conn) DeliverTo(s *Sub, subject, reply string, data []byte) error {
+	c.dmu.RLock()
+	defer c.dmu.RUnlock()
 	m := &nats.Msg{Subject: subject, Reply: reply, Data: data, Sub: s.NS}
 	select {
 	case s.Ch <- m:
